@@ -12,7 +12,7 @@ def frame_hdr(n, flag):
     return be32(n) + u8(flag)
 
 
-@spec
+@recspec(("bytes", "bool"), "bytes", opaque=True)
 def frame(data, compressed):
     """the frame carrying packet `data`; `compressed` is the flag the sender actually chose"""
     if compressed:
